@@ -17,9 +17,10 @@ LEVEL = "exploration"
 RULE = ("cases = chunks of the full product {13 amounts (quick; ~110 in thorough: cent grid around 0, powers of ten and two, large magnitudes): +-1e12, +-100.5, +-0.25, -0.0, 0, 1, 0.1+0.2, 5e-324, -5e-324, 1e308} x "
         "{every subset of income/transfer/investment, every per-tag letter-case form (lower/UPPER/Title/mIxEd), every order, "
         "with an ordinary tag before/after/both/none; plus [], missing, [\"\"], padded and look-alike tags}; plus all 343 triples of 7 "
-        "values for the cash-flow formula. non-trivial = inputs whose tag list holds >=1 special tag in non-lower-case form or >=2 "
+        "values for the cash-flow formula; plus every set of 1..3 (quick) / 1..4 (thorough) of 12 transactions rendered as a real HTML report whose scripts are executed under node "
+        "(stand-in for Vue): the totals card the application computes against the command-line classification. non-trivial = inputs whose tag list holds >=1 special tag in non-lower-case form or >=2 "
         "special tags, or amount is zero/negative-zero (sign boundary); inputs are distinct by construction")
-ASSUMPTIONS = ["the JavaScript classification functions are executed under node, not inside a browser/Vue app",
+ASSUMPTIONS = ["the JavaScript classification functions are executed under node, not inside a browser; the application's setup() runs against a minimal stand-in for Vue (ref / computed / createApp), only its unfiltered totals card is read",
                "tags are strings (non-string tags are outside the property)",
                "python side additionally compared with the reference bucket rule for tag lists built from exact special tags (any letter case) and ordinary tags; look-alike spellings (padded, sub-typed, non-ASCII) are judged on agreement only"]
 
@@ -77,9 +78,18 @@ def tag_lists():
 CASH_VALUES = [0.0, 0.25, 100.5, 1e12, 0.1, 0.1 + 0.2, 1e-9]
 CHUNK = 64
 
+# the application itself: generated reports whose two inline scripts are executed under node with a stand-in for Vue (mc/js/c13_app.js);
+# (merchant, amount, tags): one merchant with purchases and refunds, the three special tags in both signs and in other letter case, two at once
+JS_APP = os.path.join(H.VERIF_ROOT, "mc", "js", "c13_app.js")
+APP_TXNS = [("Bookshop", 50.0, []), ("Bookshop", 30.25, []), ("Bookshop", -30.25, []), ("Bookshop", -80.0, ["gift"]), ("Cafe", 5.5, ["food"]),
+            ("Pay", -3000.0, ["income"]), ("Pay", 40.0, ["Income"]), ("Sav", 500.0, ["transfer"]), ("Sav", -200.0, ["TRANSFER"]),
+            ("Brk", 400.0, ["investment"]), ("Brk", -25.0, ["Investment"]), ("Mix", 10.0, ["transfer", "income"])]
+APP_CHUNK = 8
+
 
 def bounds(tier):
-    return {"amounts": len(amounts_for(tier)), "tag_lists": len(tag_lists()), "cash_triples": len(CASH_VALUES) ** 3}
+    return {"amounts": len(amounts_for(tier)), "tag_lists": len(tag_lists()), "cash_triples": len(CASH_VALUES) ** 3,
+            "app_transactions": len(APP_TXNS), "app_max_set_size": 3 if tier == "quick" else 4}
 
 
 def amounts_for(tier):
@@ -101,6 +111,9 @@ def gen_cases(tier):
     for i in range(0, len(tls), CHUNK):
         yield {"classify": [[a, t] for t in tls[i:i + CHUNK] for a in amts]}
     yield {"cash": [list(t) for t in itertools.product(CASH_VALUES, repeat=3)]}
+    subsets = [list(c) for k in range(1, (3 if tier == "quick" else 4) + 1) for c in itertools.combinations(range(len(APP_TXNS)), k)]
+    for i in range(0, len(subsets), APP_CHUNK):
+        yield {"app": subsets[i:i + APP_CHUNK]}
 
 
 def run_js(batch):
@@ -114,7 +127,65 @@ KEYMAP = {"income": "income", "investment": "investment", "transfer_in": "transf
           "spending": "spending", "credits": "credits"}
 
 
+def check_app(case):
+    """Reports generated from small transaction sets; the totals card the application computes when it is mounted (every transaction of
+    every visible merchant, no filter) against the command-line classification of the same transactions."""
+    import datetime as dt
+    import shutil
+    from tally import classification as C
+    from tally.analyzer import analyze_transactions, write_summary_file_vue
+    from mc.checks import rules_common as R
+    outdir = os.path.join(R.scratch(), "c13app")
+    shutil.rmtree(outdir, ignore_errors=True)
+    os.makedirs(outdir)
+    paths, wants, viol = [], [], []
+    not_observed = 0
+    for n, subset in enumerate(case["app"]):
+        txns = [{"merchant": APP_TXNS[i][0], "category": "Cat " + APP_TXNS[i][0], "subcategory": "S", "amount": APP_TXNS[i][1],
+                 "date": dt.datetime(2025, 1 + k % 3, 5 + k), "description": APP_TXNS[i][0], "raw_description": APP_TXNS[i][0].upper() + " %d" % k,
+                 "source": "S", "tags": list(APP_TXNS[i][2])} for k, i in enumerate(subset)]
+        want = {"income": 0.0, "spending": 0.0, "credits": 0.0, "investment": 0.0, "transfers": 0.0, "count": len(txns)}
+        for t in txns:
+            c = C.categorize_amount(t["amount"], t["tags"])
+            for k in ("income", "spending", "credits", "investment"):
+                want[k] += c[k]
+            want["transfers"] += c["transfer_in"] - c["transfer_out"]
+        H.reset_state()
+        p = os.path.join(outdir, f"r{n}.html")
+        try:
+            write_summary_file_vue(analyze_transactions(txns), p, year=2025, sources=["S"], embedded_html=True)
+        except Exception as e:  # noqa
+            viol.append({"kind": "python-exception", "detail": f"report generation: {type(e).__name__}: {e}", "case": {"app": [subset]}})
+            continue
+        paths.append((subset, p))
+        wants.append(want)
+    if paths:
+        pr = subprocess.run(["node", JS_APP] + [p for _, p in paths], capture_output=True, text=True, timeout=900)
+        if pr.returncode != 0:
+            raise H.HarnessError(f"node app driver failed rc={pr.returncode}: {pr.stderr[-800:]}")
+        for (subset, _), want, line in zip(paths, wants, pr.stdout.strip().splitlines()):
+            got = json.loads(line)
+            sub = {"app": [subset]}
+            if "error" in got:
+                # the stand-in could not run the application, or the application no longer exposes this card under this name: that is a
+                # limit of the harness (recorded as an outcome, visible in the evidence), not a disagreement between browser and command line
+                not_observed += 1
+                continue
+            bad = {k: (got["app"].get(k), want[k]) for k in want if got["app"].get(k) is None or abs(got["app"][k] - want[k]) > 1e-9 * max(1.0, abs(want[k]))}
+            if bad:
+                viol.append({"kind": "bucket-mismatch", "detail": {"entry": "totals computed by the report application (no filter)",
+                                                                    "transactions": [list(APP_TXNS[i]) for i in subset],
+                                                                    "browser_vs_command_line": {k: {"browser": a, "command_line": b} for k, (a, b) in bad.items()}},
+                             "case": sub})
+    shutil.rmtree(outdir, ignore_errors=True)
+    multi = sum(1 for s in case["app"] if len({APP_TXNS[i][0] for i in s}) < len(s))
+    return {"evals": len(case["app"]), "nontrivial": 0 if not_observed else multi, "outcomes": ["app-totals-not-observable" if not_observed else "app-totals"], "violations": viol,
+            "sample_repr": {"first_transaction_set": [list(APP_TXNS[i]) for i in case["app"][0]], "sets_in_chunk": len(case["app"])}}
+
+
 def check_case(case):
+    if "app" in case:
+        return check_app(case)
     from tally import classification as C
     js = run_js(case)
     viol = []
